@@ -6,6 +6,8 @@ PARTIAL by construction: compiler acceptance has no Lean model.
    statement templates, #if/#endif and extern "C" balance of util.Header.write_headers and of the four wrapc
    file skeletons;
  * tie (T): tools/extract_helpers.py regenerates Gen/Helpers.lean from the working tree on every run;
+ * proved (Props/C05Dox.lean over Model/Doxygen.lean): write_doxygen keeps every line of brief/description/return inside the
+   comment (tie: the real util.WrapperMixin.write_doxygen on random texts vs the model driver op `dox`);
  * tie (D): the real gather_helper_code of Wrapc/Wrapf/Wrapp/Wrapl (instances taken from a real run, fresh
    process) vs the model driver on the real graphs and on random graphs; the real util.Header.write_headers
    on random header states and the real Wrapc.write_header/write_impl/write_header_utility/
@@ -25,7 +27,7 @@ from tools import common, shroudrun
 LEVEL = "proof"
 MANIFEST = dict(
     category="proof",
-    text="PARTIAL. Proved in Lean 4 (33 theorems, for all inputs unless a table is named): (1) helper dependency closure used by all four "
+    text="PARTIAL. Proved in Lean 4 (36 theorems, for all inputs unless a table is named): (1) helper dependency closure used by all four "
          "emitters (gather_helper_code, DFS with a done set): terminates on every table, emits exactly the requested helpers and their "
          "transitive dependencies, each once, and on acyclic tables every helper after its dependencies (order fails on a cycle: witness); "
          "the helper set shared between modules is the union of the modules' sets, so every helper any module (library, namespace, "
@@ -39,9 +41,15 @@ MANIFEST = dict(
          "lines of the four C wrapper file skeletons are #if/#endif- and extern-C-balanced for every option combination; 'each header at "
          "most once' only as write_headers_includes_once_partial (hypothesis needed, unconditional statement refuted); (4) the Fortran "
          "USE/IMPORT bookkeeping is a merge: exact, monotone, complete, order-independent as a set, and the USE lines list every required "
-         "symbol (an empty ONLY dict followed by a symbol request narrows 'use m': witness only_clause_can_narrow). NOT proved: that "
+         "symbol (an empty ONLY dict followed by a symbol request narrows 'use m': witness only_clause_can_narrow); (5) the doxygen block of a "
+         "declaration (util.WrapperMixin.write_doxygen, user text brief/description/return) stays inside the comment for ALL texts: every "
+         "appended element is the begin line, the end line or starts with the continuation prefix, holds no newline (one physical line) "
+         "and no tab / form feed of the text; Fortran instance: every element starts with '!'; a text without those characters is written "
+         "verbatim. NOT proved: that "
          "gcc/g++/gfortran accept the emitted text and that the objects link. That part is an exploration oracle: real Shroud on the 50 "
-         "upstream configurations x 14 option variants, on generated libraries (libgen, pygen, luagen, c05gen options x features matrix) x "
+         "upstream configurations x 14 option variants, on generated libraries (libgen, pygen, luagen, c05gen options x features matrix, "
+         "incl. classes whose cxx_header lists several not self-contained headers in a non-alphabetical required order, with and without "
+         "destructor, and multi-line doxygen texts) x "
          "{c,c++} x wrapper subsets x F_CFI x {debug,doxygen,literalinclude,show_splicer_comments} x line lengths; every written file "
          "through -fsyntax-only (headers alone from C and C++, Fortran in module order, cpp_if macros undefined and defined, Python against "
          "CPython headers, Lua against an emulator header), and a LINK step: all generated C/C++/Fortran objects plus the library "
@@ -60,9 +68,9 @@ MANIFEST = dict(
          "set); hand-written models of gather_helper_code, write_headers, the wrapc skeletons and the USE/IMPORT merge, validated "
          "differentially on every run.",
     technique="Lean 4 proof (induction on DFS depth with a done-set measure, list-merge lemmas, decide +kernel over regenerated tables) + "
-              "differential correspondence (five ties) + compile-and-link exploration oracle with committed baseline",
+              "differential correspondence (six ties) + compile-and-link exploration oracle with committed baseline",
 )
-MODULES = ["ShroudVerif.Props.C05"]
+MODULES = ["ShroudVerif.Props.C05", "ShroudVerif.Props.C05Dox"]
 THEOREMS = {
     "ShroudVerif.Props.C05": [
         "Shroud.Helpers.gather_emits_closure_exactly_once",
@@ -98,7 +106,12 @@ THEOREMS = {
         "Shroud.FModule.use_lines_cover",
         "Shroud.FModule.only_clause_can_narrow",
         "Shroud.FModule.fmodule_decl_covered",
-    ]
+    ],
+    "ShroudVerif.Props.C05Dox": [
+        "Shroud.Doxygen.write_doxygen_inside_comment",
+        "Shroud.Doxygen.write_doxygen_fortran_all_comment",
+        "Shroud.Doxygen.addText_verbatim",
+    ],
 }
 
 # ---------------------------------------------------------------------------------------------- exclusions
@@ -551,6 +564,77 @@ def fmodule_tie(ctx, r, ok, thorough):
         ctx.sample({"fmodule": {"calls": seqs[-1], "use": reals[-1]}})
     if bad:
         ctx.tie_broken("Wrapf.update_f_module/update_f_module_line/sort_module_info vs Model.FModule", bad[:4])
+
+
+# ---------------------------------------------------------------------------------------------- doxygen tie
+DOX_PIECES = ["the number of open channels", "or zero", "", " ", "\t", "a\tb", "\f", "! x", "*/ x", "end", "x &", "\\return y", "%d {z}", "ä€"]
+
+
+def dox_text(r):
+    n = r.choice([0, 1, 1, 2, 3, 4])
+    t = "\n".join(r.choice(DOX_PIECES) for _ in range(n))
+    if r.random() < 0.4:
+        t += "\n"
+    if r.random() < 0.1:
+        t += "\n"
+    return t
+
+
+def doxygen_tie(ctx, r, ok, thorough):
+    """real util.WrapperMixin.write_doxygen on random brief/description/return texts (C and Fortran comment strings) vs the model;
+    implementation-only oracle: every PHYSICAL line of what it appends (elements split at newline, as write_lines does) is the
+    begin line, the end line or starts with the continuation prefix, and has no tab / form feed (write_continue breaks there)."""
+    from shroud import util
+    styles = [("/**", " *", " */"), ("!>", "!!", "!<")]
+    lines, reals, keep = [], [], []
+
+    def enc(t):
+        return ",".join(str(ord(ch)) for ch in t) or "~"
+    for i in range(1500 if thorough else 500):
+        b, c, e = styles[i % 2]
+        docs = {}
+        for k in ("brief", "description", "return"):
+            if r.random() < 0.6:
+                docs[k] = dox_text(r)
+        if i < 6:        # every key alone with a multi-line text, both styles
+            docs = {("brief", "description", "return")[i // 2]: "first line\nsecond line\nthird"}
+        me = types.SimpleNamespace(doxygen_begin=b, doxygen_cont=c, doxygen_end=e)
+        out = []
+        util.WrapperMixin.write_doxygen(me, out, docs)
+        ctx.count(1)
+        rp = {"call": "util.WrapperMixin.write_doxygen(self, output, docs)", "doxygen_begin": b, "doxygen_cont": c, "doxygen_end": e,
+              "docs": docs, "output": out}
+        for o in out:
+            phys = o.split("\n")
+            badl = [ln for ln in phys if not (ln == b or ln == e or ln.startswith(c))]
+            if badl:
+                key = sorted(k for k, v in docs.items() if badl[0] in str(v))
+                ctx.fail("doxygen:line-outside-comment:%s:%s" % (c.strip(), ",".join(key) or "?"),
+                         "write_doxygen appends text whose line %r does not start with the comment continuation %r: it is written to "
+                         "the wrapper as code" % (badl[0], c), rp)
+                break
+            if "\t" in o or "\f" in o:
+                ctx.fail("doxygen:break-character:%s" % c.strip(),
+                         "write_doxygen appends a line with a tab / form feed from the user text: write_continue breaks the line there "
+                         "and the rest leaves the comment", rp)
+                break
+        if any("\n" in str(v).rstrip("\n") for v in docs.values()):
+            ctx.nontrivial(("dox", c, tuple(sorted(docs)), tuple(len(o) for o in out)))
+        lines.append("dox %s %s %s %s" % (enc(b), enc(c), enc(e), " ".join(enc(docs[k]) if k in docs else "-"
+                                                                         for k in ("brief", "description", "return"))))
+        reals.append("|".join(enc(o) for o in out))
+        keep.append(rp)
+    drv = common.Driver("drv_helpers")
+    bad = []
+    if ok and drv.available():
+        for rp, real, mo in zip(keep, reals, drv.run(lines)):
+            if mo != real:
+                bad.append(dict(rp, model=mo, real=real))
+    ctx.note("doxygen_tie", {"cases": len(lines), "disagreements": len(bad)})
+    if keep:
+        ctx.sample({"doxygen": keep[-1]})
+    if bad:
+        ctx.tie_broken("util.WrapperMixin.write_doxygen vs Model.Doxygen.writeDoxygen", bad[:3])
 
 
 # ---------------------------------------------------------------------------------------------- shared helper tie
@@ -1021,13 +1105,13 @@ def run(ctx):
         "tools/extract_helpers.py: helper tables after real corpus runs; placeholders by string.Formatter.parse; provided fields = "
         "fields visible to wformat during real generation of the 50 corpus configurations + AST scan of fmt assignments (over-approximation)",
         "hand-written models Model/Helpers.lean (gather_helper_code, Header.write_headers, four wrapc skeletons) and Model/FModule.lean "
-        "(USE/IMPORT merge), tied differentially; Gen/FModule.lean: literal C_* tokens of f_arg_decl/f_result_decl/arg_decl templates, "
+        "(USE/IMPORT merge), Model/Doxygen.lean (write_doxygen), tied differentially; Gen/FModule.lean: literal C_* tokens of f_arg_decl/f_result_decl/arg_decl templates, "
         "{f_type} of an explicit interface declaration counted as {f_kind}; kinds reached through {f_type} on the Fortran-wrapper side "
         "come from typemaps and are outside the table theorem",
         "gcc/g++/gfortran 12 front ends, CPython 3.12 headers, tools/ccheck/luaemu (stand-in for Lua headers)",
     ]
     ctx.cov["rule"] = ("evaluations = tie comparisons (one per emitter and request; per header state; per skeleton case) + table rows + "
-                       "compile-oracle configurations; non-trivial = gather results whose emission order differs from sorted order or "
+                       "compile-oracle configurations + write_doxygen calls; non-trivial = doxygen calls with a multi-line text; gather results whose emission order differs from sorted order or "
                        "that raise KeyError, header states with conditional includes, skeleton option combinations, configurations "
                        "compiled by >= 2 different tools; USE/IMPORT call sequences touching >= 2 modules")
     ctx.assumptions += [
@@ -1047,6 +1131,7 @@ def run(ctx):
     header_tie(ctx, r, ok, thorough)
     fmodule_tie(ctx, r, ok, thorough)
     shared_tie(ctx, r, ok, thorough)
+    doxygen_tie(ctx, r, ok, thorough)
     compile_oracle(ctx, r, thorough, data)
 
 
